@@ -15,7 +15,7 @@ RULE = ("A source of format Fs holding given codes is converted to format Fd (in
         "Sources are built from raw codes, from float values and from python-int values (different value dtypes). Generated: exhaustive codes for n_word<=4 sources x sampled destinations (<=6 thorough), "
         "Hypothesis up to 52 bits with shapes (), (n,), (m,n), chains of up to 6 conversions. Non-trivial = value inexact or out of range in the destination, or chain length >=3; distinct = distinct case keys.")
 ASSUMPTIONS = ['core-domain formats (n_word<=52); no scale/bias', 'flags compared on overflow/underflow only (inaccuracy propagation on conversion routes is C04 territory)']
-EXHAUSTIVE = True
+EXHAUSTIVE = False    # the whole quantifier is not enumerated; complete sub-domains are listed in EXHAUSTIVE_SUBDOMAINS
 EXHAUSTIVE_SUBDOMAINS = {'quick': ['every code of every source format n_word<=4 (n_frac -2..n_word+2) x 14 destination formats x 9 routes x 10 destination modes'],
                          'thorough': ['every code of every source format n_word<=6 x 24 destination formats x 9 routes x 10 modes']}
 REQUIRED_CLASSES = {'inexact': 2000, 'overflow': 2000, 'chain>=3': 200, 'src:int-valued': 300, 'shape:2d': 200, 'upshift>=63bits': 100}
